@@ -27,6 +27,7 @@
 extern int mpt_stream_flush(MPT_STRUCT(stream) *stream)
 {
 	size_t len;
+	ssize_t wlen;
 	int file;
 	
 	/* write data */
@@ -67,15 +68,16 @@ extern int mpt_stream_flush(MPT_STRUCT(stream) *stream)
 			len = 0;
 		}
 		/* write queue buffer data to file */
-		if ((len = writev(file, io, len ? 2 : 1)) <= 0) {
-			if (!len) {
+		if ((wlen = writev(file, io, len ? 2 : 1)) <= 0) {
+			if (!wlen) {
 				mpt_stream_seterror(&stream->_info, MPT_ENUM(ErrorFull));
 				return 1;
 			} else {
 				mpt_stream_seterror(&stream->_info, MPT_ENUM(ErrorWrite));
 			}
-			return len;
+			return wlen;
 		}
+		len = wlen;
 	}
 	/* remove written data from queue */
 	mpt_queue_crop(&stream->_wd.data, 0, len);
